@@ -14,6 +14,7 @@ NOT decided: cstl_hash_mul in [0, m) -- a statement about single-precision round
 """
 from ..facts import Prover, _k
 from ..ir import const_int, resolve_addr
+from ..hashmodel import same_value_loads
 
 HASH_FTY = 'i64 (i64, i64)'
 
@@ -113,7 +114,7 @@ def run(m, rep, tier):
             # sweep index: must be proven below a bucket count loaded from the table
             ok = False
             for (op, x, y) in pv.fc.block_facts(g.block):
-                if op == 'ult' and x == idx:
+                if op == 'ult' and (x == idx or same_value_loads(f, x, idx)):
                     yi = f.get(y)
                     if yi is not None and yi.op == 'load' and resolve_addr(f, yi.o[0]).path in ('bucket.count', 'bucket.rh.count'):
                         ok = True
